@@ -179,3 +179,19 @@ Example C02_tsl_aligned_nonvacuous :
   bounds_pos tiles /\ box_digits true tiles [5; 8; 4] /\ weights tiles = [32; 4; 1] /\
   resolve (access_mem (LTsl [tiles]) 2 [weights tiles] [0]) 3 = [128; 2; 16].
 Proof. repeat split; try reflexivity; try (repeat constructor; cbn; lia); try (cbn; lia). Qed.
+
+(* 7. Layout resolution as a whole (after the repairs of F5 and F5b): the constant term goes to the base
+      pointer, the unit responses relative to it are the strides, and together they reproduce
+      layout∘schedule at EVERY point of the box — for every linear-on-box access map (all strided layouts,
+      aligned tiled layouts: section 6). *)
+Theorem C02_resolve_exact :
+  forall f bounds x, linear_on_box f bounds -> in_box x bounds ->
+  resolve_base f (List.length bounds) + dot (resolve f (List.length bounds)) x = f x.
+Proof. exact resolve_exact. Qed.
+Print Assumptions C02_resolve_exact.
+
+(* regression for F5b: without the base-pointer constant a static offset of 5 i64 elements is lost *)
+Example C02_resolve_without_base_refuted :
+  let f := access_mem (LStrided [1] 5) 8 [[4; 1]] [0] in
+  linear_on_box f [4; 4] /\ resolve_base f 2 = 40 /\ dot (resolve f 2) [1; 1] <> f [1; 1].
+Proof. exact resolve_without_base_refuted. Qed.
